@@ -11,9 +11,10 @@
   * Bollinger: the model's variance is ≥ 0 so for sigma > 0 upper ≥ middle ≥ lower; StDev² ≥ 0; true range ≥ 0; CLV in [−1,1].
   The float side — rounding residue of either sign behind exact `== 0` guards — is what these theorems cannot see; the
   correspondence run tests the ranges strictly on the implementation's own values (see KNOWN_FINDINGS.txt).
-  Partial: LinearVolatility / MeanAbsDev non-negativity, Keltner/Envelopes ordering, CMF and TSI ranges: run only.
+  Partial: MeanAbsDev non-negativity, Keltner/Envelopes ordering, CMF and TSI ranges: run only.
 -/
 import YataProofs.Indicators.More
+import YataProofs.Numeric.LinVol
 namespace Yata.C12
 open Yata Yata.Ind
 
@@ -56,6 +57,13 @@ theorem C12_bollinger_var_nonneg (s : BB) (k : Candle ℚ) (mid var : ℚ) (s' :
 
 theorem C12_stdev_nonneg (s : StDev ℚ) : 0 ≤ s.peekVar := stdev_var_nonneg s
 
+/-- LinearVolatility is never negative, on every stream, at every step (exact arithmetic) -/
+theorem C12_linear_volatility_nonneg {P n : Nat} (v : ℚ) (hn0 : 0 < n) (hn : n ≤ P - 1) (xs : List ℚ) :
+    ∃ s0 outs s', LinearVolatility.new P n v = .ok s0 ∧ runM LinearVolatility.next s0 xs = .ok (outs, s') ∧
+      outs.length = xs.length ∧ ∀ i (hi : i < outs.length), 0 ≤ outs[i] := by
+  obtain ⟨s0, os, s', h1, h2, h3, h4⟩ := LinearVolatility.spec (P := P) v hn0 hn xs
+  exact ⟨s0, os, s', h1, h2, h3, fun i hi => (h4 i hi).2⟩
+
 theorem C12_tr_nonneg (c : Candle ℚ) (p : ℚ) (h : c.low ≤ c.high) : 0 ≤ c.trClose p := tr_nonneg c p h
 
 theorem C12_clv_range (c : Candle ℚ) (h1 : c.low ≤ c.close) (h2 : c.close ≤ c.high) : -1 ≤ c.clv ∧ c.clv ≤ 1 :=
@@ -80,3 +88,4 @@ end Yata.C12
 #print axioms Yata.C12.C12_stdev_nonneg
 #print axioms Yata.C12.C12_tr_nonneg
 #print axioms Yata.C12.C12_clv_range
+#print axioms Yata.C12.C12_linear_volatility_nonneg
